@@ -349,7 +349,7 @@ def run(tier, seed, started):
     need = ['tool_runs_in_one_go', 'stop_points', 'resumed_compactions',
             'server_starts_after_compaction', 'continuations_index', 'continuations_index+reorg']
     if [k for k in need if not c.get(k)] or c.get('max:batches', 0) < 3:
-        raise common.Broken(f'vacuous C14 run: {c}')
+        common.vacuous(PROP, res, f'vacuous C14 run: {c}')
     coverage = {
         'evaluations': c['executions'],
         'distinct_nontrivial': c['stop_points'] + c['tool_runs_in_one_go'],
